@@ -219,6 +219,16 @@ type missedRange struct {
 	why    string
 }
 
+func (v *view) missedHit(lw int) *missedRange {
+	for i := range v.missed {
+		m := &v.missed[i]
+		if lw > m.lo && lw <= m.hi && (m.only == nil || m.only[lw]) {
+			return m
+		}
+	}
+	return nil
+}
+
 func (v *view) miss(key string, lo, hi int, only map[int]bool, why string) {
 	v.missed = append(v.missed, missedRange{key: key, lo: lo, hi: hi, only: only, why: why})
 }
@@ -229,9 +239,17 @@ func (v *view) miss(key string, lo, hi int, only map[int]bool, why string) {
 func (h *harness) noteResume(v *view, r int) {
 	pos := int(v.f.Pos().TXID)
 	if r <= 0 || r > pos {
+		delete(h.persistMissed, v.label) // restored from scratch
 		return
 	}
 	v.resumeFrom = r
+	if prior := h.persistMissed[v.label]; len(prior) > 0 {
+		for _, m := range prior {
+			m.why = "inherited with the persistent hydrated copy from an earlier Open of this history: " + strings.TrimPrefix(m.why, "inherited with the persistent hydrated copy from an earlier Open of this history: ")
+			v.missed = append(v.missed, m)
+		}
+		h.res.Count("hydration_resumed_copy_with_inherited_missed_ranges", 1)
+	}
 	h.res.Count("hydration_resumed_from_persistent_file", 1)
 	gone := map[int]bool{}
 	var names []string
@@ -344,9 +362,11 @@ func (h *harness) releaseHydration(v *view) {
 // does for F18); a page they do not explain leaves the violation generic.
 //
 //   - time-travel view: SetTargetTime ran while the hydration was in flight, the
-//     hydration has completed since, and every bad page was last written (up to
-//     the hydrated copy's TXID) after the TXID the view stands for, or lies
-//     beyond the hydrated copy's size.
+//     hydration has completed since, and for every bad page the version the
+//     hydrated copy holds is by the history not the one of the view's TXID: its
+//     last writer up to the hydrated copy's TXID differs from its last writer up
+//     to the view's TXID, or is a transaction that never reached the copy (see
+//     below), or the page lies beyond the hydrated copy's size.
 //   - latest view served from the hydrated copy: the last writer (<= the
 //     reference TXID) of every bad page is a transaction the history says never
 //     reached the hydrated copy: polled (or reached through ResetTime) while the
@@ -366,7 +386,8 @@ func (h *harness) hydClassify(v *view, fx facts) (string, string) {
 			commit = lf.Hdr.Commit
 		}
 		for _, pg := range fx.badPages {
-			if lw := h.lastWriter(pg, v.hydAt); lw <= v.ttTXID && uint32(pg) <= commit {
+			lw := h.lastWriter(pg, v.hydAt)
+			if lw == h.lastWriter(pg, v.ttTXID) && v.missedHit(lw) == nil && uint32(pg) <= commit {
 				return "", ""
 			}
 		}
@@ -377,15 +398,7 @@ func (h *harness) hydClassify(v *view, fx facts) (string, string) {
 	}
 	var first *missedRange
 	for _, pg := range fx.badPages {
-		lw := h.lastWriter(pg, fx.ref)
-		var hit *missedRange
-		for i := range v.missed {
-			m := &v.missed[i]
-			if lw > m.lo && lw <= m.hi && (m.only == nil || m.only[lw]) {
-				hit = m
-				break
-			}
-		}
+		hit := v.missedHit(h.lastWriter(pg, fx.ref))
 		if hit == nil {
 			return "", ""
 		}
